@@ -27,6 +27,12 @@ pub enum FileCase {
     /// set `set` (see `name_sets`), core layouts rotated over the chromosomes
     WigNames { set: u32, lay: u32, opts: Opts },
     BedNames { set: u32, lay: u32, opts: Opts },
+    /// text sources larger than the line reader's 8 KiB buffer whose multi-byte characters fall on
+    /// every alignment relative to the buffer refills: 400 entries with CJK `rest` fields (bigBed) /
+    /// 1 500 values on chromosomes with CJK names (bigWig); `shift` ASCII bytes in front move the
+    /// alignment
+    BedBigText { shift: u32, opts: Opts },
+    WigBigText { shift: u32, opts: Opts },
     /// one chromosome, three entries, the first with a `rest` of exactly `len` bytes
     BedLongRest { len: u32, opts: Opts },
     /// one chromosome, two entries, a supplied autoSql of exactly `len` bytes
@@ -159,6 +165,40 @@ pub fn expand(c: &FileCase) -> FileCase {
                 opts: opts.clone(),
             })
         }
+        FileCase::BedBigText { shift, opts } => FileCase::Bed(BedCase {
+            chroms: vec![BChrom {
+                name: "c".into(),
+                len: 100_000,
+                items: (0..400u32)
+                    .map(|i| BItem {
+                        s: 5 * i,
+                        e: 5 * i + 7,
+                        rest: format!(
+                            "{}{}",
+                            if i == 0 { "x".repeat(*shift as usize) } else { String::new() },
+                            (0..30u32).map(|k| char::from_u32(0x4e00 + (i * 31 + k * 7) % 2000).unwrap()).collect::<String>()
+                        ),
+                    })
+                    .collect(),
+            }],
+            extra_sizes: vec![],
+            allow_ooo: false,
+            autosql: None,
+            opts: opts.clone(),
+        }),
+        FileCase::WigBigText { shift, opts } => FileCase::Wig(WigCase {
+            chroms: (0..3u32)
+                .map(|ci| WChrom {
+                    // names sort in this order: the ASCII prefix differs
+                    name: format!("{}{}\u{67d3}\u{8272}\u{4f53}", ["a", "b", "c"][ci as usize], "y".repeat(*shift as usize)),
+                    len: 100_000,
+                    items: (0..500u32).map(|i| WItem { s: 3 * i, e: 3 * i + 2, vb: ((i % 11) as f32 + ci as f32 * 0.5).to_bits() }).collect(),
+                })
+                .collect(),
+            extra_sizes: vec![],
+            allow_ooo: false,
+            opts: opts.clone(),
+        }),
         FileCase::BedLongRest { len, opts } => FileCase::Bed(BedCase {
             chroms: vec![BChrom {
                 name: "c".into(),
@@ -234,6 +274,47 @@ fn names_cases(bed: bool) -> Vec<FileCase> {
                         v.push(if bed { FileCase::BedNames { set, lay, opts: o } } else { FileCase::WigNames { set, lay, opts: o } });
                     }
                 }
+            }
+        }
+    }
+    v
+}
+
+/// more manual zoom levels than the header has room for (13 and 16): the file's data must be
+/// untouched by whatever happens to the surplus levels
+fn many_zoom_cases(bed: bool) -> Vec<FileCase> {
+    let mut v = vec![];
+    for nz in [13u32, 16] {
+        for (ips, bs) in [(1u32, 2u32), (1024, 256)] {
+            for two_pass in [false, true] {
+                for compress in [true, false] {
+                    for lay in 0..3usize {
+                        let mut o = Opts::base();
+                        o.ips = ips;
+                        o.bs = bs;
+                        o.two_pass = two_pass;
+                        o.compress = compress;
+                        o.zoom = Zoom::Manual((2..2 + nz).collect());
+                        v.push(if bed { FileCase::Bed(bed_multi(lay % chrom_sets().len(), lay, &o)) } else { FileCase::Wig(wig_multi(lay % chrom_sets().len(), lay, &o)) });
+                    }
+                }
+            }
+        }
+    }
+    v
+}
+
+fn big_text_cases(bed: bool) -> Vec<FileCase> {
+    let mut v = vec![];
+    for shift in 0..3u32 {
+        for src in [SrcKind::SerialText, SrcKind::ParallelFile] {
+            for two_pass in [false, true] {
+                let mut o = Opts::base();
+                o.src = src;
+                o.two_pass = two_pass;
+                o.ips = 64;
+                o.zoom = Zoom::Manual(vec![64]);
+                v.push(if bed { FileCase::BedBigText { shift, opts: o } } else { FileCase::WigBigText { shift, opts: o } });
             }
         }
     }
@@ -428,7 +509,7 @@ pub fn wig_family(tier: Tier) -> Box<dyn Iterator<Item = FileCase>> {
             big.push(FileCase::WigBig { n, opts: o });
         }
     }
-    Box::new(a.chain(b).chain(big.into_iter()).chain(many_cases(false, quick).into_iter()).chain(uneven_cases(false).into_iter()).chain(names_cases(false).into_iter()))
+    Box::new(a.chain(b).chain(big.into_iter()).chain(many_cases(false, quick).into_iter()).chain(uneven_cases(false).into_iter()).chain(names_cases(false).into_iter()).chain(many_zoom_cases(false).into_iter()).chain(big_text_cases(false).into_iter()))
 }
 
 pub fn bed_family(tier: Tier) -> Box<dyn Iterator<Item = FileCase>> {
@@ -504,7 +585,9 @@ pub fn bed_family(tier: Tier) -> Box<dyn Iterator<Item = FileCase>> {
             .chain(longsql.into_iter())
             .chain(uneven_cases(true).into_iter())
             .chain(names_cases(true).into_iter())
-            .chain(longrest.into_iter()),
+            .chain(longrest.into_iter())
+            .chain(many_zoom_cases(true).into_iter())
+            .chain(big_text_cases(true).into_iter()),
     )
 }
 
@@ -551,6 +634,28 @@ pub fn zoom_opts(quick: bool) -> Vec<Opts> {
     v
 }
 
+/// manual zoom lists that name a size more than once (adjacent and non-adjacent repeats): a size
+/// given twice is one level
+pub fn dup_zoom_opts() -> Vec<Opts> {
+    let mut v = vec![];
+    let mut n = 0;
+    for z in [vec![2u32, 2], vec![4, 2, 4], vec![8, 2, 8, 2, 4]] {
+        for ips in [1u32, 1024] {
+            for two_pass in [false, true] {
+                n += 1;
+                let mut o = Opts::base();
+                o.ips = ips;
+                o.bs = if ips == 1 { 2 } else { 256 };
+                o.two_pass = two_pass;
+                o.compress = n % 2 == 0;
+                o.zoom = Zoom::Manual(z.clone());
+                v.push(o);
+            }
+        }
+    }
+    v
+}
+
 pub fn wig_zoom_family(tier: Tier) -> Box<dyn Iterator<Item = FileCase>> {
     let quick = tier == Tier::Quick;
     let lays = wig_layouts(k_for(tier), L);
@@ -570,7 +675,8 @@ pub fn wig_zoom_family(tier: Tier) -> Box<dyn Iterator<Item = FileCase>> {
                 .map(move |o| FileCase::Wig(wig_multi(si, li, &o)))
         })
     });
-    Box::new(a.chain(b))
+    let d = (0..chrom_sets().len()).flat_map(move |si| (0..core_wig_layouts().len()).flat_map(move |li| dup_zoom_opts().into_iter().map(move |o| FileCase::Wig(wig_multi(si, li, &o)))));
+    Box::new(a.chain(b).chain(d))
 }
 
 pub fn bed_zoom_family(tier: Tier) -> Box<dyn Iterator<Item = FileCase>> {
@@ -598,7 +704,8 @@ pub fn bed_zoom_family(tier: Tier) -> Box<dyn Iterator<Item = FileCase>> {
                 .map(move |o| FileCase::Bed(bed_multi(si, li, &o)))
         })
     });
-    Box::new(a.chain(b))
+    let d = (0..chrom_sets().len()).flat_map(move |si| (0..core_bed_layouts().len()).flat_map(move |li| dup_zoom_opts().into_iter().map(move |o| FileCase::Bed(bed_multi(si, li, &o)))));
+    Box::new(a.chain(b).chain(d))
 }
 
 // ---------------------------------------------------------------------------------------------
@@ -729,6 +836,33 @@ pub fn oracle_c01(c: &WigCase, bytes: &[u8], out: &mut Outcome) {
                 ));
             }
         }
+        // the same full-span reads through ONE caching reader with a history: a narrow query into
+        // the middle of every chromosome first, then every chromosome in reverse and in forward
+        // order; each must equal the plain reader's answer
+        let mut cr = BigWigRead::open(Cursor::new(bytes.to_vec())).map_err(|e| ("open_failed".to_string(), format!("{}", e)))?.cached();
+        fn full<R: bigtools::BBIFileRead>(rd: &mut BigWigRead<R>, ch: &WChrom) -> Result<Vec<(u32, u32, u32)>, String> {
+            let mut v = vec![];
+            for x in rd.get_interval(&ch.name, 0, ch.len).map_err(|e| format!("{}", e))? {
+                let x = x.map_err(|e| format!("{}", e))?;
+                v.push((x.start, x.end, x.value.to_bits()));
+            }
+            Ok(v)
+        }
+        for ch in &c.chroms {
+            if let Some(m) = ch.items.get(ch.items.len() / 2) {
+                if let Ok(it) = cr.get_interval(&ch.name, m.s, m.s + 1) {
+                    for _ in it {}
+                }
+            }
+        }
+        let order: Vec<&WChrom> = c.chroms.iter().rev().chain(c.chroms.iter()).collect();
+        for ch in order {
+            let a = full(&mut cr, ch);
+            let b = full(&mut r, ch);
+            if a != b {
+                return Err(("cached_reader_full_span_differs".to_string(), format!("{}: caching reader with a history read {:?}, plain reader {:?}", ch.name, a, b)));
+            }
+        }
         Ok(())
     });
     match r {
@@ -840,6 +974,32 @@ pub fn oracle_c02(c: &BedCase, bytes: &[u8], out: &mut Outcome) {
                     "roundtrip_mismatch".to_string(),
                     format!("{}: read {:?}, wrote {:?}", ch.name, got, want),
                 ));
+            }
+        }
+        // one caching reader with a history (narrow queries first, then every chromosome in
+        // reverse and forward order) must give the plain reader's answers
+        let mut cr = BigBedRead::open(Cursor::new(bytes.to_vec())).map_err(|e| ("open_failed".to_string(), format!("{}", e)))?.cached();
+        fn full<R: bigtools::BBIFileRead>(rd: &mut BigBedRead<R>, ch: &BChrom) -> Result<Vec<(u32, u32, String)>, String> {
+            let mut v = vec![];
+            for x in rd.get_interval(&ch.name, 0, ch.len).map_err(|e| format!("{}", e))? {
+                let x = x.map_err(|e| format!("{}", e))?;
+                v.push((x.start, x.end, x.rest));
+            }
+            Ok(v)
+        }
+        for ch in &c.chroms {
+            if let Some(m) = ch.items.get(ch.items.len() / 2) {
+                if let Ok(it) = cr.get_interval(&ch.name, m.s, m.s + 1) {
+                    for _ in it {}
+                }
+            }
+        }
+        let order: Vec<&BChrom> = c.chroms.iter().rev().chain(c.chroms.iter()).collect();
+        for ch in order {
+            let a = full(&mut cr, ch);
+            let b = full(&mut r, ch);
+            if a != b {
+                return Err(("cached_reader_full_span_differs".to_string(), format!("{}: caching reader with a history read {:?}, plain reader {:?}", ch.name, a.map(|v| v.len()), b.map(|v| v.len()))));
             }
         }
         Ok(())
@@ -1005,7 +1165,26 @@ pub fn oracle_c06_wig(c: &WigCase, bytes: &[u8], out: &mut Outcome) {
         r.get_summary().map_err(|e| format!("{}", e))
     });
     match r {
-        Ok(Ok(s)) => cmp_summary("bigWig", &s, &tot, &min_alts, &max_alts, &tags, out),
+        Ok(Ok(s)) => {
+            cmp_summary("bigWig", &s, &tot, &min_alts, &max_alts, &tags, out);
+            // the same through sources whose reads come back short (5- and 64-byte pages): the
+            // numbers must not depend on how many bytes one read call returns
+            for page in [5u64, 64] {
+                let r2 = guarded(|| {
+                    let mut r = BigWigRead::open(crate::qfam::PagedMem::new(bytes, page)).map_err(|e| format!("{}", e))?;
+                    r.get_summary().map_err(|e| format!("{}", e))
+                });
+                out.count("summaries_through_short_reading_sources", 1);
+                match r2 {
+                    Ok(Ok(s2)) => {
+                        if format!("{:?}", s2) != format!("{:?}", s) {
+                            out.fail("summary_depends_on_read_sizes", &tags, format!("source with {}-byte pages: {:?}, plain source {:?}", page, s2, s));
+                        }
+                    }
+                    other => out.fail("summary_depends_on_read_sizes", &tags, format!("source with {}-byte pages: {:?}", page, other)),
+                }
+            }
+        }
         Ok(Err(e)) => out.fail("read_error", &tags, e),
         Err(p) => out.fail("read_panicked", &tags, p),
     }
@@ -1036,6 +1215,23 @@ pub fn oracle_c06_bed(c: &BedCase, bytes: &[u8], out: &mut Outcome) {
     match r {
         Ok(Ok((s, ic))) => {
             cmp_summary("bigBed", &s, &tot, &min_alts, &max_alts, &tags, out);
+            for page in [5u64, 64] {
+                let r2 = guarded(|| {
+                    let mut r = BigBedRead::open(crate::qfam::PagedMem::new(bytes, page)).map_err(|e| format!("{}", e))?;
+                    let s = r.get_summary().map_err(|e| format!("{}", e))?;
+                    let ic = r.item_count().map_err(|e| format!("{}", e))?;
+                    Ok::<_, String>((s, ic))
+                });
+                out.count("summaries_through_short_reading_sources", 1);
+                match r2 {
+                    Ok(Ok((s2, ic2))) => {
+                        if format!("{:?}", s2) != format!("{:?}", s) || ic2 != ic {
+                            out.fail("summary_depends_on_read_sizes", &tags, format!("source with {}-byte pages: {:?} / {} items, plain source {:?} / {}", page, s2, ic2, s, ic));
+                        }
+                    }
+                    other => out.fail("summary_depends_on_read_sizes", &tags, format!("source with {}-byte pages: {:?}", page, other)),
+                }
+            }
             if ic != n as u64 || s.total_items != n as u64 {
                 out.fail(
                     "item_count",
